@@ -39,7 +39,7 @@ def _plan(draw, max_rows):
     if huge:
         # long operands (65 .. 2049 rows on either side): beyond any size threshold a fast path might use
         nl = draw(st.sampled_from(gen.BIG_SIZES + gen.HUGE_SIZES[:3] + [3, 12]))
-        nr = draw(st.sampled_from(gen.BIG_SIZES + gen.HUGE_SIZES[:3] + [3, 12]))
+        nr = draw(st.sampled_from(gen.BIG_SIZES + gen.HUGE_SIZES[:3] + [3, 12, 10007, 12001]))     # also beyond ten thousand rows
     left, right, by = [], [], []
     mixed = draw(st.integers(0, 7)) == 0
     if mixed:
@@ -229,6 +229,8 @@ def _check_join(plan, L, R, ctx):
     if plan.get("mixed"):
         ctx.cls("key_dtypes_differ_between_sides")
     if max(nl, nr) >= 65:
+        if nr > 10000:
+            ctx.cls("right_operand_beyond_10000_rows")
         ctx.cls("operand_of_65_rows_or_more", "operand_of_513_rows_or_more" if max(nl, nr) >= 513 else "operand_65_to_512")
     if any(a != b for a, b in plan["by"]):
         ctx.cls("key_names_differ")
